@@ -13,10 +13,36 @@ use cosmwasm_std::{
     StakingQuery, Storage,
 };
 use cw_multi_test::error::AnyResult;
+use cw_multi_test::custom_handler::CachingCustomHandler;
 use cw_multi_test::{
-    AppResponse, Bank, BankKeeper, BankSudo, CosmosRouter, Distribution, DistributionKeeper, Gov, Ibc,
-    Module, StakeKeeper, Staking, StakingSudo, Stargate,
+    AcceptingModule, AppResponse, Bank, BankKeeper, BankSudo, CosmosRouter, Distribution, DistributionKeeper, FailingModule, Gov,
+    GovAcceptingModule, GovFailingModule, Ibc, IbcAcceptingModule, IbcFailingModule, Module, StakeKeeper, Staking, StakingSudo,
+    Stargate, StargateAccepting, StargateFailing,
 };
+
+/// What answers behind a recording shim: the stub with the per-run fault plan, or one of the
+/// repo's own modules (real code).
+pub enum CustomInner {
+    Stub,
+    Accepting(AcceptingModule<SimMsg, SimQuery, Empty>),
+    Failing(FailingModule<SimMsg, SimQuery, Empty>),
+    Caching(CachingCustomHandler<SimMsg, SimQuery>),
+}
+pub enum IbcInner {
+    Stub,
+    Accepting(IbcAcceptingModule),
+    Failing(IbcFailingModule),
+}
+pub enum GovInner {
+    Stub,
+    Accepting(GovAcceptingModule),
+    Failing(GovFailingModule),
+}
+pub enum StargateInner {
+    Stub,
+    Accepting(StargateAccepting),
+    Failing(StargateFailing),
+}
 use serde::de::DeserializeOwned;
 
 fn cs(c: &[Coin]) -> String {
@@ -252,6 +278,7 @@ fn stub_answer(_world: &World, kind: &str, tag: &str) -> AnyResult<Binary> {
 
 pub struct RecCustom {
     pub world: World,
+    pub inner: CustomInner,
 }
 
 impl Module for RecCustom {
@@ -261,31 +288,67 @@ impl Module for RecCustom {
 
     fn execute<ExecC, QueryC>(
         &self,
-        _api: &dyn Api,
-        _storage: &mut dyn Storage,
-        _router: &dyn CosmosRouter<ExecC = ExecC, QueryC = QueryC>,
-        _block: &BlockInfo,
+        api: &dyn Api,
+        storage: &mut dyn Storage,
+        router: &dyn CosmosRouter<ExecC = ExecC, QueryC = QueryC>,
+        block: &BlockInfo,
         sender: Addr,
         msg: SimMsg,
-    ) -> AnyResult<AppResponse> {
-        if self.world.module_call("custom", sender.as_str(), msg.tag.clone()) {
-            bail!("injected custom module failure");
+    ) -> AnyResult<AppResponse>
+    where
+        ExecC: CustomMsg + DeserializeOwned + 'static,
+        QueryC: CustomQuery + DeserializeOwned + 'static,
+    {
+        match &self.inner {
+            CustomInner::Stub => {
+                if self.world.module_call("custom", sender.as_str(), msg.tag.clone()) {
+                    bail!("injected custom module failure");
+                }
+                Ok(AppResponse::default())
+            }
+            CustomInner::Accepting(m) => {
+                self.world.module_call_rec("custom", sender.as_str(), msg.tag.clone());
+                m.execute(api, storage, router, block, sender, msg)
+            }
+            CustomInner::Failing(m) => {
+                self.world.module_call_rec("custom", sender.as_str(), msg.tag.clone());
+                m.execute(api, storage, router, block, sender, msg)
+            }
+            CustomInner::Caching(m) => {
+                self.world.module_call_rec("custom", sender.as_str(), msg.tag.clone());
+                m.execute(api, storage, router, block, sender, msg)
+            }
         }
-        Ok(AppResponse::default())
     }
 
     fn query(
         &self,
-        _api: &dyn Api,
-        _storage: &dyn Storage,
-        _querier: &dyn Querier,
-        _block: &BlockInfo,
+        api: &dyn Api,
+        storage: &dyn Storage,
+        querier: &dyn Querier,
+        block: &BlockInfo,
         request: SimQuery,
     ) -> AnyResult<Binary> {
-        if self.world.module_call("custom.query", "", request.tag.clone()) {
-            bail!("injected custom query failure");
+        match &self.inner {
+            CustomInner::Stub => {
+                if self.world.module_call("custom.query", "", request.tag.clone()) {
+                    bail!("injected custom query failure");
+                }
+                stub_answer(&self.world, "custom.query", &request.tag)
+            }
+            CustomInner::Accepting(m) => {
+                self.world.module_call_rec("custom.query", "", request.tag.clone());
+                m.query(api, storage, querier, block, request)
+            }
+            CustomInner::Failing(m) => {
+                self.world.module_call_rec("custom.query", "", request.tag.clone());
+                m.query(api, storage, querier, block, request)
+            }
+            CustomInner::Caching(m) => {
+                self.world.module_call_rec("custom.query", "", request.tag.clone());
+                m.query(api, storage, querier, block, request)
+            }
         }
-        stub_answer(&self.world, "custom.query", &request.tag)
     }
 
     fn sudo<ExecC, QueryC>(
@@ -302,6 +365,7 @@ impl Module for RecCustom {
 
 pub struct RecIbc {
     pub world: World,
+    pub inner: IbcInner,
 }
 
 impl Module for RecIbc {
@@ -311,29 +375,45 @@ impl Module for RecIbc {
 
     fn execute<ExecC, QueryC>(
         &self,
-        _api: &dyn Api,
-        _storage: &mut dyn Storage,
-        _router: &dyn CosmosRouter<ExecC = ExecC, QueryC = QueryC>,
-        _block: &BlockInfo,
+        api: &dyn Api,
+        storage: &mut dyn Storage,
+        router: &dyn CosmosRouter<ExecC = ExecC, QueryC = QueryC>,
+        block: &BlockInfo,
         sender: Addr,
         msg: IbcMsg,
-    ) -> AnyResult<AppResponse> {
+    ) -> AnyResult<AppResponse>
+    where
+        ExecC: CustomMsg + DeserializeOwned + 'static,
+        QueryC: CustomQuery + DeserializeOwned + 'static,
+    {
         let payload = match &msg {
             IbcMsg::CloseChannel { channel_id } => channel_id.clone(),
             other => format!("{:?}", other),
         };
-        if self.world.module_call("ibc", sender.as_str(), payload) {
-            bail!("injected ibc module failure");
+        match &self.inner {
+            IbcInner::Stub => {
+                if self.world.module_call("ibc", sender.as_str(), payload) {
+                    bail!("injected ibc module failure");
+                }
+                Ok(AppResponse::default())
+            }
+            IbcInner::Accepting(m) => {
+                self.world.module_call_rec("ibc", sender.as_str(), payload);
+                m.execute(api, storage, router, block, sender, msg)
+            }
+            IbcInner::Failing(m) => {
+                self.world.module_call_rec("ibc", sender.as_str(), payload);
+                m.execute(api, storage, router, block, sender, msg)
+            }
         }
-        Ok(AppResponse::default())
     }
 
     fn query(
         &self,
-        _api: &dyn Api,
-        _storage: &dyn Storage,
-        _querier: &dyn Querier,
-        _block: &BlockInfo,
+        api: &dyn Api,
+        storage: &dyn Storage,
+        querier: &dyn Querier,
+        block: &BlockInfo,
         request: IbcQuery,
     ) -> AnyResult<Binary> {
         let tag = match &request {
@@ -341,10 +421,22 @@ impl Module for RecIbc {
             IbcQuery::Channel { channel_id, .. } => channel_id.clone(),
             other => format!("{:?}", other),
         };
-        if self.world.module_call("ibc.query", "", tag.clone()) {
-            bail!("injected ibc query failure");
+        match &self.inner {
+            IbcInner::Stub => {
+                if self.world.module_call("ibc.query", "", tag.clone()) {
+                    bail!("injected ibc query failure");
+                }
+                stub_answer(&self.world, "ibc.query", &tag)
+            }
+            IbcInner::Accepting(m) => {
+                self.world.module_call_rec("ibc.query", "", tag);
+                m.query(api, storage, querier, block, request)
+            }
+            IbcInner::Failing(m) => {
+                self.world.module_call_rec("ibc.query", "", tag);
+                m.query(api, storage, querier, block, request)
+            }
         }
-        stub_answer(&self.world, "ibc.query", &tag)
     }
 
     fn sudo<ExecC, QueryC>(
@@ -362,6 +454,7 @@ impl Ibc for RecIbc {}
 
 pub struct RecGov {
     pub world: World,
+    pub inner: GovInner,
 }
 
 impl Module for RecGov {
@@ -371,21 +464,37 @@ impl Module for RecGov {
 
     fn execute<ExecC, QueryC>(
         &self,
-        _api: &dyn Api,
-        _storage: &mut dyn Storage,
-        _router: &dyn CosmosRouter<ExecC = ExecC, QueryC = QueryC>,
-        _block: &BlockInfo,
+        api: &dyn Api,
+        storage: &mut dyn Storage,
+        router: &dyn CosmosRouter<ExecC = ExecC, QueryC = QueryC>,
+        block: &BlockInfo,
         sender: Addr,
         msg: GovMsg,
-    ) -> AnyResult<AppResponse> {
+    ) -> AnyResult<AppResponse>
+    where
+        ExecC: CustomMsg + DeserializeOwned + 'static,
+        QueryC: CustomQuery + DeserializeOwned + 'static,
+    {
         let payload = match &msg {
             GovMsg::Vote { proposal_id, .. } => proposal_id.to_string(),
             other => format!("{:?}", other),
         };
-        if self.world.module_call("gov", sender.as_str(), payload) {
-            bail!("injected gov module failure");
+        match &self.inner {
+            GovInner::Stub => {
+                if self.world.module_call("gov", sender.as_str(), payload) {
+                    bail!("injected gov module failure");
+                }
+                Ok(AppResponse::default())
+            }
+            GovInner::Accepting(m) => {
+                self.world.module_call_rec("gov", sender.as_str(), payload);
+                m.execute(api, storage, router, block, sender, msg)
+            }
+            GovInner::Failing(m) => {
+                self.world.module_call_rec("gov", sender.as_str(), payload);
+                m.execute(api, storage, router, block, sender, msg)
+            }
         }
-        Ok(AppResponse::default())
     }
 
     fn query(
@@ -414,15 +523,16 @@ impl Gov for RecGov {}
 
 pub struct RecStargate {
     pub world: World,
+    pub inner: StargateInner,
 }
 
 impl Stargate for RecStargate {
     fn execute_stargate<ExecC, QueryC>(
         &self,
-        _api: &dyn Api,
-        _storage: &mut dyn Storage,
-        _router: &dyn CosmosRouter<ExecC = ExecC, QueryC = QueryC>,
-        _block: &BlockInfo,
+        api: &dyn Api,
+        storage: &mut dyn Storage,
+        router: &dyn CosmosRouter<ExecC = ExecC, QueryC = QueryC>,
+        block: &BlockInfo,
         sender: Addr,
         type_url: String,
         value: Binary,
@@ -431,33 +541,58 @@ impl Stargate for RecStargate {
         ExecC: CustomMsg + DeserializeOwned + 'static,
         QueryC: CustomQuery + DeserializeOwned + 'static,
     {
-        if self.world.module_call("stargate", sender.as_str(), format!("{}:{}", type_url, crate::storage::hex(value.as_slice()))) {
-            bail!("injected stargate failure");
+        let payload = format!("{}:{}", type_url, crate::storage::hex(value.as_slice()));
+        match &self.inner {
+            StargateInner::Stub => {
+                if self.world.module_call("stargate", sender.as_str(), payload) {
+                    bail!("injected stargate failure");
+                }
+                Ok(AppResponse::default())
+            }
+            StargateInner::Accepting(m) => {
+                self.world.module_call_rec("stargate", sender.as_str(), payload);
+                m.execute_stargate(api, storage, router, block, sender, type_url, value)
+            }
+            StargateInner::Failing(m) => {
+                self.world.module_call_rec("stargate", sender.as_str(), payload);
+                m.execute_stargate(api, storage, router, block, sender, type_url, value)
+            }
         }
-        Ok(AppResponse::default())
     }
 
     fn query_stargate(
         &self,
-        _api: &dyn Api,
-        _storage: &dyn Storage,
-        _querier: &dyn Querier,
-        _block: &BlockInfo,
+        api: &dyn Api,
+        storage: &dyn Storage,
+        querier: &dyn Querier,
+        block: &BlockInfo,
         path: String,
-        _data: Binary,
+        data: Binary,
     ) -> AnyResult<Binary> {
-        if self.world.module_call("stargate.query", "", path.clone()) {
-            bail!("injected stargate query failure");
+        match &self.inner {
+            StargateInner::Stub => {
+                if self.world.module_call("stargate.query", "", path.clone()) {
+                    bail!("injected stargate query failure");
+                }
+                stub_answer(&self.world, "stargate.query", &path)
+            }
+            StargateInner::Accepting(m) => {
+                self.world.module_call_rec("stargate.query", "", path.clone());
+                m.query_stargate(api, storage, querier, block, path, data)
+            }
+            StargateInner::Failing(m) => {
+                self.world.module_call_rec("stargate.query", "", path.clone());
+                m.query_stargate(api, storage, querier, block, path, data)
+            }
         }
-        stub_answer(&self.world, "stargate.query", &path)
     }
 
     fn execute_any<ExecC, QueryC>(
         &self,
-        _api: &dyn Api,
-        _storage: &mut dyn Storage,
-        _router: &dyn CosmosRouter<ExecC = ExecC, QueryC = QueryC>,
-        _block: &BlockInfo,
+        api: &dyn Api,
+        storage: &mut dyn Storage,
+        router: &dyn CosmosRouter<ExecC = ExecC, QueryC = QueryC>,
+        block: &BlockInfo,
         sender: Addr,
         msg: AnyMsg,
     ) -> AnyResult<AppResponse>
@@ -465,23 +600,48 @@ impl Stargate for RecStargate {
         ExecC: CustomMsg + DeserializeOwned + 'static,
         QueryC: CustomQuery + DeserializeOwned + 'static,
     {
-        if self.world.module_call("any", sender.as_str(), format!("{}:{}", msg.type_url, crate::storage::hex(msg.value.as_slice()))) {
-            bail!("injected any failure");
+        let payload = format!("{}:{}", msg.type_url, crate::storage::hex(msg.value.as_slice()));
+        match &self.inner {
+            StargateInner::Stub => {
+                if self.world.module_call("any", sender.as_str(), payload) {
+                    bail!("injected any failure");
+                }
+                Ok(AppResponse::default())
+            }
+            StargateInner::Accepting(m) => {
+                self.world.module_call_rec("any", sender.as_str(), payload);
+                m.execute_any(api, storage, router, block, sender, msg)
+            }
+            StargateInner::Failing(m) => {
+                self.world.module_call_rec("any", sender.as_str(), payload);
+                m.execute_any(api, storage, router, block, sender, msg)
+            }
         }
-        Ok(AppResponse::default())
     }
 
     fn query_grpc(
         &self,
-        _api: &dyn Api,
-        _storage: &dyn Storage,
-        _querier: &dyn Querier,
-        _block: &BlockInfo,
+        api: &dyn Api,
+        storage: &dyn Storage,
+        querier: &dyn Querier,
+        block: &BlockInfo,
         request: GrpcQuery,
     ) -> AnyResult<Binary> {
-        if self.world.module_call("grpc.query", "", request.path.clone()) {
-            bail!("injected grpc query failure");
+        match &self.inner {
+            StargateInner::Stub => {
+                if self.world.module_call("grpc.query", "", request.path.clone()) {
+                    bail!("injected grpc query failure");
+                }
+                stub_answer(&self.world, "grpc.query", &request.path)
+            }
+            StargateInner::Accepting(m) => {
+                self.world.module_call_rec("grpc.query", "", request.path.clone());
+                m.query_grpc(api, storage, querier, block, request)
+            }
+            StargateInner::Failing(m) => {
+                self.world.module_call_rec("grpc.query", "", request.path.clone());
+                m.query_grpc(api, storage, querier, block, request)
+            }
         }
-        stub_answer(&self.world, "grpc.query", &request.path)
     }
 }
